@@ -100,6 +100,11 @@ for _c, _attrs in META.items():
         if a in names and a not in d:
             d.append(a)
 
+# SPEC: defaults of attributes the readers may leave out (Part 1: Qualifier/kind default ConceptQualifier,
+# HasKind/kind default Instance, SubmodelElementList/orderRelevant default true) — as wire tokens
+SPEC_DEFAULTS = {("Qualifier", "kind"): "ConceptQualifier", ("Submodel", "kind"): "Instance",
+                 ("SubmodelElementList", "order_relevant"): "true"}
+
 SUBMODEL_ELEMENT_CLASSES = ["Property", "MultiLanguageProperty", "Range", "Blob", "File", "ReferenceElement",
                             "SubmodelElementCollection", "SubmodelElementList", "RelationshipElement",
                             "AnnotatedRelationshipElement", "Operation", "Capability", "Entity", "BasicEventElement"]
